@@ -258,7 +258,9 @@ pub fn gen(rng: &mut Rng, thorough: bool, sink: &mut Sink) {
       sink.case(bcase(1, full.as_bytes()), "whitespace-shift"); sink.case(bcase(2, full.as_bytes()), "whitespace-shift"); sink.case(bcase(7, full.as_bytes()), "whitespace-shift-routes");
     } } }
   }
-  for s in ["", "d", "did", "did:", "did::", "did:a", "did:a:", "DID:a:b", "dad:a:b", "did:A:b", "did:a:b:c:d", "did:a:b/", "did:a:b?", "did:a:b#", "did:a:b???", "did:a:b/p?q#f", "did:a:b/%41", "did:a:b?%41", "did:a:b#%41", "did:a:%41", "did:a:%4", "did:a:%+1", "did:a:%+1x", "did:a:b%41", "did:a:%41%42x", "did:a:%41%4", "did:m:x/%aa?q", "did:a:b/../c", "did:a:b//", "did:a:b#a#b", "did:a:b?a?b"] {
+  for s in ["", "d", "did", "did:", "did::", "did:a", "did:a:", "DID:a:b", "dad:a:b", "did:A:b", "did:a:b:c:d", "did:a:b/", "did:a:b?", "did:a:b#", "did:a:b???", "did:a:b/p?q#f", "did:a:b/%41", "did:a:b?%41", "did:a:b#%41", "did:a:%41", "did:a:%4", "did:a:%+1", "did:a:%+1x", "did:a:b%41", "did:a:%41%42x", "did:a:%41%4", "did:m:x/%aa?q", "did:a:b/../c", "did:a:b//", "did:a:b#a#b", "did:a:b?a?b",
+    // an illegal character BEFORE a well-formed triple in the same component (and after it, and in another component)
+    "did:a:b/ab cd%41", "did:a:b/a{b%41", "did:a:b?a b%41", "did:a:b?a{%41x", "did:a:b#a\"b%41", "did:a:b#a b%41", "did:a:b/%41 x", "did:a:b/%41?a b", "did:a:b/a b?%41", "did:a:b/x%41#a b", "did:a:a b%41", "did:a:a{%41"] {
     sink.case(bcase(1, s.as_bytes()), "table"); sink.case(bcase(2, s.as_bytes()), "table"); sink.case(bcase(7, s.as_bytes()), "table-routes");
   }
   // (b) random longer strings from a DID-URL grammar with mutation
@@ -284,7 +286,7 @@ pub fn gen(rng: &mut Rng, thorough: bool, sink: &mut Sink) {
   }
   // (c) setters and join over a pool of values x a pool of segments
   let starts = ["did:a:b", "did:a:b/p", "did:a:b?q", "did:a:b#f", "did:example:123/p/q?x=1&y=2#frag", "did:a:b:c/p?q?#f?", "did:a:%41", "did:a:b%41/p%41", "did:a:%41%42?q=%41#f%41", "did:a:b/p%41?%41", "did:a:x%41y/%41/q"];
-  let segs = ["", "/", "/p", "p", "/p q", "?", "?q", "q", "??", "?q?r", "#", "#f", "f", "##", "a#b", "key 2", "/%41", "/%4", "%41", "?%41", "#%zz", "/é", "/a/../b", "/./x", "/a/./b/..", "/..", "/.", "/../..", "/a/b/../../c", "//a//b", "/a/.", "/a/..", "/.a", "/..a", "/a./b", "/a/...", "/../a?q", "/./?q#f", "/a/../?", "/%2e%2e/x", "/a/b/c/../../../../d", "?a=b&c=d", "#f?g/h", "/p?q#f", "?q#f", "/p#f", "noleading", "/{x}", "/~!$&'()*+,;=@:"];
+  let segs = ["", "/", "/p", "p", "/p q", "?", "?q", "q", "??", "?q?r", "#", "#f", "f", "##", "a#b", "key 2", "/%41", "/%4", "%41", "?%41", "#%zz", "/a b%41", "/a{%41", "?a b%41", "#a b%41", "#a\"%41x", "/%41 b", "/é", "/a/../b", "/./x", "/a/./b/..", "/..", "/.", "/../..", "/a/b/../../c", "//a//b", "/a/.", "/a/..", "/.a", "/..a", "/a./b", "/a/...", "/../a?q", "/./?q#f", "/a/../?", "/%2e%2e/x", "/a/b/c/../../../../d", "?a=b&c=d", "#f?g/h", "/p?q#f", "?q#f", "/p#f", "noleading", "/{x}", "/~!$&'()*+,;=@:"];
   for st in starts.iter().map(|s| s.to_string()).chain(valid_pool.iter().cloned().take(if thorough { 40 } else { 10 })) {
     for sg in segs { for op in 0..3 { for flag in [1i64, 0] {
       let mut c = vec![3]; put_bytes(&mut c, st.as_bytes()); c.push(op); c.push(flag); put_bytes(&mut c, sg.as_bytes()); sink.case(c, "setter");
